@@ -469,6 +469,10 @@ inductive StartResult where
   | listens                      -- registration succeeded: `internal.StartHttp(...)` is reached
   deriving Repr, DecidableEq
 
+/-- `handleError(err)`: returns for `err == nil` and for (a wrapper of) `http.ErrServerClosed`, panics with `err`
+otherwise (`isNil`: the interface value is nil — a typed-nil pointer is NOT; `closed`: `errors.Is(err, ErrServerClosed)`). -/
+def handleErrorPanics (isNil closed : Bool) : Bool := !(isNil || closed)
+
 /-- `Server.Start()` = `handleError(s.ngin.start(s.router))`, `engine.start` = `bindRoutes` (nested loops), then listen. -/
 def Server.start (s : Server) : Server × StartResult :=
   let res := bindGroups s.router.core s.groupRegs
